@@ -11,6 +11,7 @@ use crate::simnet::{run_sim, sleep_us, Fate, Link, Micros, Net, HOUR, MIN, MS, S
 use crate::wiremon;
 use crate::world::{spawn_node, NodeCfg, WNode, World};
 use btdht::verif::EventKind;
+use rand::seq::SliceRandom;
 use rand::{Rng, SeedableRng};
 use rand_chacha::ChaCha8Rng;
 use std::collections::HashSet;
@@ -91,7 +92,7 @@ fn scenario(ctx: &Ctx, idx: u64) -> Report {
             outages.push((start, start + len));
         }
         let outs = outages.clone();
-        let link = Link::uniform(2 * MS, 120 * MS);
+        let link = Link::uniform(2 * MS, *[120 * MS, 120 * MS, 700 * MS, 1300 * MS].choose(&mut rng).unwrap());
         net.set_fault(Box::new(move |rng, meta| {
             if outs.iter().any(|(a, b)| meta.now >= *a && meta.now < *b) {
                 Fate::dropped()
@@ -100,6 +101,10 @@ fn scenario(ctx: &Ctx, idx: u64) -> Report {
             }
         }));
         net.set_log_enabled(false);
+        // injected scheduling points: the node's sends may yield, so that the bootstrap worker can
+        // run while the handler is in the middle of a refresh round or a search
+        let yield_p = *[0.0, 0.0, 0.2, 1.0].choose(&mut rng).unwrap();
+        net.set_send_yield(yield_p);
 
         let mut cfg = NodeCfg::new(addr);
         cfg.id = Some(id);
@@ -108,6 +113,41 @@ fn scenario(ctx: &Ctx, idx: u64) -> Report {
         let dht = spawn_node(&net, &cfg);
         report.evaluations += 1;
 
+        // occasional searches: their 1.5 s timers interleave with the refresh timer. Some are
+        // started at the very instant a datagram reaches the node (API call and network event in
+        // the same tick, in either order).
+        let with_searches = rng.gen_bool(0.6);
+        if with_searches {
+            let (net2, dht2) = (net.clone(), dht.clone());
+            let mut srng = ChaCha8Rng::seed_from_u64(seed ^ 0x5ea);
+            tokio::spawn(async move {
+                loop {
+                    sleep_us(srng.gen_range(SEC..3 * MIN)).await;
+                    let ih = gen::rand_id(&mut srng);
+                    let _ = crate::world::run_search(&net2, &dht2, ih, srng.gen_bool(0.5), std::time::Duration::from_secs(600)).await;
+                }
+            });
+            // at most one aligned search per `gap` of virtual time (a search's own traffic must not
+            // trigger further searches without bound)
+            let aligned = rng.gen_bool(0.6);
+            if aligned {
+                let gap = *[3 * SEC, 20 * SEC, 2 * MIN].choose(&mut rng).unwrap();
+                let dht3 = dht.clone();
+                let mut orng = ChaCha8Rng::seed_from_u64(seed ^ 0xa119);
+                let mut last: Micros = 0;
+                net.add_observer(addr, move |w| {
+                    if w.t >= last + gap && orng.gen_bool(0.3) {
+                        last = w.t;
+                        let ih = btdht::InfoHash::from(gen::rand_id(&mut orng));
+                        let mut stream = dht3.search(ih, false);
+                        tokio::spawn(async move {
+                            use futures_util::StreamExt;
+                            while stream.next().await.is_some() {}
+                        });
+                    }
+                });
+            }
+        }
         let mut rounds: Vec<Micros> = Vec::new();
         let mut completions: Vec<Micros> = Vec::new();
         let mut max_pending = 0usize;
@@ -151,7 +191,7 @@ fn scenario(ctx: &Ctx, idx: u64) -> Report {
             }
             // No searches run in this scenario, so at most the chain's own timer may be pending
             // when a round starts.
-            if max_pending > 1 && !violated {
+            if max_pending > 1 && !with_searches && !violated {
                 report.violation(
                     "C18",
                     "pending-timers-grow",
@@ -170,9 +210,11 @@ fn scenario(ctx: &Ctx, idx: u64) -> Report {
         report.maxi("most_rebootstrap_cycles_in_one_run", completions.len() as u64);
         report.maxi("max_pending_timers_at_round_start", max_pending as u64);
         report.distinct(format!(
-            "world{}/outages{}/cycles~{}",
+            "world{}/outages{}/yield{}/searches{}/cycles~{}",
             world_size,
             n_out,
+            yield_p,
+            with_searches,
             match completions.len() {
                 0..=1 => "0-1".to_owned(),
                 2..=9 => "2-9".to_owned(),
